@@ -40,6 +40,12 @@ def failure_value(fn, v, path=None):
     if v is None:
         return False
     if fn.retty.endswith('*'):
+        if v != sym.C0 and path is not None and v[0] == 'ld' and sym.root_of(v[1])[0] == 'alloca':
+            # a member of a local aggregate that was filled by a structure copy (a result record returned by value): what
+            # it holds on this path is not modelled - no verdict
+            root = sym.root_of(v[1])
+            if v[1][0] == 'fld' and any(e.kind == 'call' and e.name.startswith('llvm.memcpy') for e in path.events):
+                return True
         if v != sym.C0 and path is not None:
             # the NULL result of the callee that failed, handed on as it is
             for cn, t, _ in path.assume:
